@@ -165,6 +165,8 @@ def havoc_value(eng, v, seen=None):
                 pass
             elif isinstance(x, int) and not isinstance(x, bool):
                 v.fields[k] = x  # concrete ints in objects are configuration; keep
+            elif hasattr(x, "__pyvc_fresh__"):  # immutable extension value (e.g. a symbolic string): the FIELD gets a fresh value, aliases keep theirs
+                v.fields[k] = x.__pyvc_fresh__(eng)
             else:
                 havoc_value(eng, x, seen)
     elif isinstance(v, DictListRef):
